@@ -180,14 +180,24 @@ def coding_tables(ctx):
     fn = Fn(ctx.repo, CODING, "PriorityEncoder.elaborate", "C38")
     hs = _hw(fn)
     d = {h.lhs: h for _, h in hs}
-    ok = (len(hs) == 2 and pat("self.o") in d and pat("self.n") in d and d[pat("self.o")].rhs == pat("count_trailing_zeros(self.i)") and not d[pat("self.o")].frames
+    # o: the index of the lowest set bit, and 0 when there is none (count_trailing_zeros(0) is the width, which is 0 in
+    # Signal(range(width)) only for powers of two: F16)
+    orhs = d[pat("self.o")].rhs if pat("self.o") in d else None
+    mo = pmatch("Mux(Q_c, 0, count_trailing_zeros(self.i))", orhs) if orhs is not None else None
+    zero_guard = False
+    if mo is not None:
+        try:
+            zero_guard = all(bool(evalt(mo["c"], {pat("self.i"): v})) == (v == 0) for v in range(16))
+        except NotEvaluable:
+            zero_guard = False
+    ok = (len(hs) == 2 and pat("self.o") in d and pat("self.n") in d and zero_guard and not d[pat("self.o")].frames
           and not d[pat("self.n")].frames)
     if ok:
         try:
             ok = all(bool(evalt(d[pat("self.n")].rhs, {pat("self.i"): v})) == (v == 0) for v in range(16))
         except NotEvaluable:
             ok = False
-    ctx.check(ok, "C38.priority-encoder", fn.site, "PriorityEncoder", found="; ".join(f"{tstr(h.lhs)} <- {tstr(h.rhs)}" for _, h in hs), required="o = count_trailing_zeros(i) (index of the lowest set bit), n = (i == 0)")
+    ctx.check(ok, "C38.priority-encoder", fn.site, "PriorityEncoder", found="; ".join(f"{tstr(h.lhs)} <- {tstr(h.rhs)}" for _, h in hs), required="o = index of the lowest set bit (count_trailing_zeros(i)), 0 when no bit is set; n = (i == 0)")
 
 
 def gray_code(ctx):
